@@ -676,8 +676,14 @@ def run_conc(binary, goroutines, replicas, seed, d):
     json.dump({"goroutines": goroutines, "replicas": replicas}, open(prog, "w"))
     env = dict(os.environ, VERIF_DATA=os.path.join(vlib.SPEC, "data"), GORACE="log_path=%s atexit_sleep_ms=0 halt_on_error=0" % rl)
     r = subprocess.run(["timeout", "300", binary, "conc", "-arg", prog, "-seed", str(seed), "-out", out], capture_output=True, text=True, env=env)
+    crash = None
     if r.returncode not in (0, 66):
-        raise Infra("conc harness failed rc=%d: %s" % (r.returncode, r.stderr[-1500:]))
+        # the process died: a crash inside the library under concurrent use (e.g. "fatal error: concurrent map
+        # read and map write") is behaviour of the real code, anything else is trouble with the harness
+        if "github.com/islishude/bip39." in r.stderr and ("fatal error:" in r.stderr or "panic:" in r.stderr):
+            crash = r.stderr[:1500]
+        else:
+            raise Infra("conc harness failed rc=%d: %s" % (r.returncode, r.stderr[-1500:]))
     text = ""
     for f in sorted(os.listdir(d)):
         if f.startswith("race"):
@@ -686,8 +692,10 @@ def run_conc(binary, goroutines, replicas, seed, d):
     if r.returncode == 66 and n == 0:
         raise Infra("race build exited 66 without a report")
     lines = vlib.read_trace(out)
+    if crash is not None:
+        lines.append(json.dumps({"op": "Crash", "conc": True, "panicked": True, "timeout": False, "panic": [ord(c) for c in crash if ord(c) < 0x110000]}) + "\n")
     lines.append(json.dumps({"op": "RaceReport", "n": n, "text": [ord(c) for c in text[:1500]]}) + "\n")
-    return lines, n
+    return lines, n + (1 if crash else 0)
 
 
 def record_c12(binary, tier, seed):
